@@ -257,6 +257,18 @@ pub fn run(ctx: &Ctx, rep: &mut Report) {
         check_position(p, false, rep);
         rep.count("family_en_passant_answers_check", 1);
     }
+    for p in gen::castle_check_family(&mut rng, ctx.n(10_000, 300_000) as usize).iter() {
+        check_position(p, false, rep);
+        rep.count("family_castling_gives_check", 1);
+    }
+    for p in gen::ep_rank_pin_family(&mut rng, ctx.n(5_000, 200_000) as usize).iter() {
+        check_position(p, false, rep);
+        rep.count("family_en_passant_rank_pin", 1);
+    }
+    for p in gen::promotion_check_family(&mut rng, ctx.n(10_000, 300_000) as usize).iter() {
+        check_position(p, false, rep);
+        rep.count("family_promotion", 1);
+    }
     // random play and random sampling
     let n_play = ctx.n(1_500_000, 40_000_000);
     let n_sample = ctx.n(1_000_000, 40_000_000);
